@@ -65,6 +65,28 @@ def run(ctx):
                 bad += [callee_key(t["callee"]).split("::")[-1] for _bb, t in cb[0].calls() if callee_key(t["callee"]).split("::")[-1] not in ("new", "default")]
         ctx.ob("R9.single-install-door", "regional-state-born-empty", not bad, wrs.loc(), f"calls in the creation closure other than constructors: {bad or 'none'}")
     local_install_rule(ctx, prog)
+    # every user of a region's state works on THE state stored in the region's slot (what other threads of the region and the
+    # writers reach), never on a private copy that lost the first-touch race
+    n_w = 0
+    for wb in prog.find("GlobalState::with_regional_state"):
+        if "::tests" in wb.key:
+            continue
+        ctx.fn(wb)
+        from ..analysis import fn_bound_params
+        for bb, t in wb.calls():
+            c = t["callee"]
+            st_ = c.get("self_ty") or {}
+            if wb.blocks[bb].cleanup or c.get("method") not in ("call_once", "call", "call_mut") or st_.get("k") != "param" or len(t["args"]) < 2:
+                continue
+            n_w += 1
+            sl = Slice(wb, through_calls=False).run(t["args"][1])
+            calls = sorted({k.split("::")[-1] for k, _, _ in sl["calls"]})
+            from_slot = bool(set(calls) & {"get_or_init", "get", "get_or_try_init", "wait"}) and not (set(calls) & {"new", "default", "clone", "from"})
+            ctx.ob("R9.single-install-door", f"{wb.crate}.with_regional_state.f-runs-on-the-slot-content#{n_w}", from_slot, wb.loc(t["span"]),
+                   f"the state handed to the caller's closure derives directly from {calls}" +
+                   ("" if from_slot else ": not read back from the slot - a thread that loses the race to fill the slot keeps working on an orphan no writer or sibling ever sees"))
+    if n_w == 0:
+        ctx.missing("R9.single-install-door", "calls of the closure parameter in GlobalState::with_regional_state (region_cached / region_local)")
     sg = prog.one("region_cached::RegionCached::set_global")
     if sg is None:
         ctx.missing("R1.publish-then-invalidate", "RegionCached::set_global")
@@ -141,6 +163,15 @@ def run(ctx):
                                                                                           [x for blk in initb.blocks for x in blk.stmts if x["k"] == "assign" and x["rv"]["k"] == "aggr" and x["rv"].get("variant") == "Ready" and x["place"]["l"] in sl["locals"]]):
                         ready_store = True
                 cas_install = not ready_store and len(cass) >= 2
+            # the value a RETRY installs is loaded anew: the load that feeds initialize() lies on the way back from a failed
+            # validation to the next install (a snapshot taken once before the loop makes every retry re-install the same
+            # outdated value: validation fails forever - a livelock that also keeps serving the overwritten value)
+            isl = Slice(wir).run(ini[0][1]["args"][-1]) if ini[0][1]["args"] else {"calls": []}
+            feed = [bbx for bbx, tx in lds if any(ct is tx for _k, _b, ct in isl["calls"])]
+            # no cycle through initialize() avoids the feeding load
+            fresh = bool(feed) and ibb not in wir.reachable(wir.term_succ(ibb, False), unwind=False, avoid=feed)
+            ctx.ob("R3.validate-after-install", "with_in_region.retry-installs-a-fresh-load", fresh, wir.loc(ini[0][1]["span"]),
+                   f"latest_value.load() sites feeding initialize(): {len(feed)}; each is re-executed on the way back to a retry: {fresh}")
             ok3 = (not escaped) or cas_install
             ctx.ob("R3.validate-after-install", "with_in_region", ok3, wir.loc(ini[0][1]["span"]),
                    f"outer re-read reachable from initialize() without re-loading latest_value: {escaped}; Ready installed by compare-and-swap against the marker: {cas_install}"
